@@ -19,6 +19,8 @@ pub struct VmObs {
     pub backedge: bool,
     pub max_stack_bytes: usize,
     pub btoi_bytes: usize,
+    pub max_step_alloc: u64,
+    pub max_step_op: String,
 }
 
 fn val_bytes(v: &Value) -> Option<Vec<u8>> { match v { Value::Bytes(b) => Some(b.clone().into()), _ => None } }
@@ -46,6 +48,8 @@ pub fn observe(ops: &[OpCode], heap: &[(u16, Value)], step_cap: u64) -> VmObs {
     let mut backedge = false;
     let mut max_stack_bytes = 0usize;
     let mut btoi_bytes = 0usize;
+    let mut max_step_alloc = 0u64;
+    let mut max_step_op = String::new();
     let stepped = catch_unwind(AssertUnwindSafe(|| {
         let mut ex = VerifExecutor::new(ops.to_vec(), hm.clone());
         while ex.pc() < ops.len() {
@@ -75,7 +79,10 @@ pub fn observe(ops: &[OpCode], heap: &[(u16, Value)], step_cap: u64) -> VmObs {
                 _ => {}
             }
             steps += 1;
+            let a0 = crate::allocated();
             let r = ex.step();
+            let da = crate::allocated() - a0;
+            if da > max_step_alloc { max_step_alloc = da; max_step_op = cf::op(&ops[pc]); }
             if ex.pc() <= pc && r.is_some() { backedge = true; }
             if r.is_none() { return Ok(None); }
             let sz: usize = ex.stack.iter().map(value_size).sum();
@@ -99,7 +106,7 @@ pub fn observe(ops: &[OpCode], heap: &[(u16, Value)], step_cap: u64) -> VmObs {
             }
         }
     }
-    VmObs { result, steps, weight, calls, bytes, hashes, sigs, backedge, max_stack_bytes, btoi_bytes }
+    VmObs { result, steps, weight, calls, bytes, hashes, sigs, backedge, max_stack_bytes, btoi_bytes, max_step_alloc, max_step_op }
 }
 
 pub fn case_line(ops: &[OpCode], heap: &[(u16, Value)], o: &VmObs) -> String {
@@ -358,10 +365,10 @@ pub fn adversarial(r: &mut Rng) -> Vec<Vec<OpCode>> {
     v.push(vec![Noop]);
     // known finding F12: k consecutive Loop opcodes cost 2^k opcodes_car_weight calls
     v.push(vec![Loop(1, 65535); 14]);
-    // known finding F13: BtoI materialises the whole byte string before looking at its length
+    // regression (fixed F13): BtoI on a long byte string must fail without materialising it
     {
         let mut p = vec![PushB(vec![7; 8])];
-        for _ in 0..14 { p.push(Dup); p.push(BAppend); }
+        for _ in 0..16 { p.push(Dup); p.push(BAppend); }
         p.push(BtoI);
         v.push(p);
     }
@@ -429,9 +436,8 @@ pub fn run(tier: &str, seed: u64, em: &mut Emitter) {
             c11.push(format!("weighing {} opcodes took {} opcodes_car_weight calls", n, o.calls));
             if nloops >= 2 { class.push("F12"); }
         }
-        if o.btoi_bytes > 65535 + 64 {
-            c11.push(format!("BtoI materialised a {}-byte string", o.btoi_bytes));
-            class.push("F13");
+        if o.max_step_alloc > 400_000 {
+            c11.push(format!("one {} instruction allocated {} bytes", o.max_step_op, o.max_step_alloc));
         }
         if !c11.is_empty() { viol.push(format!("\"C11\":{:?}", c11.join("; "))); }
         if panicked { viol.push(format!("\"C09\":{:?}", match &o.result { Err(e) => e.clone(), _ => String::new() })); }
